@@ -189,6 +189,8 @@ def work_requests(arg):
         for qargs in qarg_sets():
             for headers in HEADERSETS:
                 for bkind, bval in bodies():
+                    if qargs and qargs[0][0] == "p" and bkind == "form" and bval[0][0] == "p":
+                        continue   # thorough: value pairs are crossed with the basic sets only
                     out = request_case(valet, method, path, qargs, headers, bkind, bval, part)
                     part.evaluations += 1
                     part.nontrivial(show_req(method, path, qargs, headers, bkind, bval))
